@@ -26,7 +26,8 @@ import (
 //	throw: throw "boom"
 //	undef: evaluates an undefined name
 //
-// Params is the script function's parameter count (-1: `func(a...)`, -2: `func(a0, b...)`).
+// Params is the script function's parameter count (-1: `func(a...)`, -2: `func(a0, b...)`,
+// -3: all but the last parameter fixed, `func(a0, …, a<n-2>, b...)`).
 type CbCase struct {
 	In     []int   `json:"in"`
 	Out    []int   `json:"out"`
@@ -46,7 +47,9 @@ const assertVariadicScriptCallback = true
 
 func genCbCase(t *rapid.T) CbCase {
 	c := CbCase{In: []int{}, Out: []int{}, Calls: [][]int{}, Ret: []SV{}}
-	n := rapid.IntRange(0, 3).Draw(t, "nin")
+	// 0-3 parameters mostly; 4-7 one time in five (script functions of five and more parameters are
+	// built by another route than the small ones)
+	n := rapid.SampledFrom([]int{0, 1, 1, 2, 2, 2, 3, 3, 3, 3, 3, 3, 4, 5, 6, 7}).Draw(t, "nin")
 	for i := 0; i < n; i++ {
 		c.In = append(c.In, genTypeIdx(t, "ptype"))
 	}
@@ -75,6 +78,10 @@ func genCbCase(t *rapid.T) CbCase {
 	case 4:
 		if n > 0 {
 			c.Params = -2
+		}
+	case 5:
+		if n > 1 {
+			c.Params = -3
 		}
 	}
 	c.Body = rapid.SampledFrom([]string{"ret", "ret", "ret", "ret", "ret", "ret", "ret", "throw", "undef"}).Draw(t, "body")
@@ -106,7 +113,7 @@ func genCbCase(t *rapid.T) CbCase {
 }
 
 func cbOracle(c CbCase, o *h.Obs) *h.Fail {
-	if len(c.In) > 5 || len(c.Out) > 4 || len(c.Calls) == 0 || len(c.Calls) > 4 {
+	if len(c.In) > 8 || len(c.Out) > 4 || len(c.Calls) == 0 || len(c.Calls) > 4 {
 		o.Excluded = "bad_case"
 		return nil
 	}
@@ -153,6 +160,16 @@ func cbOracle(c CbCase, o *h.Obs) *h.Fail {
 	case c.Params == -2:
 		params = []string{"a0", "b..."}
 		recArgs = "a0, b"
+	case c.Params == -3:
+		if n < 2 {
+			o.Excluded = "bad_case"
+			return nil
+		}
+		for i := 0; i < n-1; i++ {
+			params = append(params, "a"+strconv.Itoa(i))
+		}
+		recArgs = strings.Join(params, ", ") + ", b"
+		params = append(params, "b...")
 	default:
 		for i := 0; i < c.Params; i++ {
 			params = append(params, "a"+strconv.Itoa(i))
@@ -250,6 +267,8 @@ func cbOracle(c CbCase, o *h.Obs) *h.Fail {
 		paramShape = "variadic"
 	case c.Params == -2:
 		paramShape = "fixed+variadic"
+	case c.Params == -3:
+		paramShape = "fixed+variadic-last"
 	case c.Params < n:
 		paramShape = "fewer"
 	case c.Params > n:
@@ -266,10 +285,15 @@ func cbOracle(c CbCase, o *h.Obs) *h.Fail {
 
 	// what the script function must see at invocation i
 	wantSeen := func(inv int) []reflect.Value {
-		if c.Params == -2 && n > 0 {
-			// func(a0, b...) reports rec(a0, b): the first argument and the list of the rest
-			rest := make([]interface{}, 0, n-1)
-			for _, v := range goArgs[inv][1:] {
+		if (c.Params == -2 && n > 0) || c.Params == -3 {
+			// func(a0, b...) reports rec(a0, b): the first argument and the list of the rest;
+			// func(a0, …, a<n-2>, b...) the first n-1 arguments and the list holding the last
+			k := 1
+			if c.Params == -3 {
+				k = n - 1
+			}
+			rest := make([]interface{}, 0, n-k)
+			for _, v := range goArgs[inv][k:] {
 				v = unwrap(v)
 				if v.IsValid() {
 					rest = append(rest, v.Interface())
@@ -277,7 +301,7 @@ func cbOracle(c CbCase, o *h.Obs) *h.Fail {
 					rest = append(rest, nil)
 				}
 			}
-			return []reflect.Value{goArgs[inv][0], reflect.ValueOf(rest)}
+			return append(append([]reflect.Value{}, goArgs[inv][:k]...), reflect.ValueOf(rest))
 		}
 		return goArgs[inv]
 	}
@@ -288,10 +312,11 @@ func cbOracle(c CbCase, o *h.Obs) *h.Fail {
 		why    string
 		vals   []reflect.Value
 		loose  []bool
+		either []bool // result j went through a one-character string -> byte/rune step: error or that character
 		nilPtr bool
 	}
 	planRet := func(inv int) rplan {
-		rp := rplan{vals: make([]reflect.Value, m), loose: make([]bool, m)}
+		rp := rplan{vals: make([]reflect.Value, m), loose: make([]bool, m), either: make([]bool, m)}
 		if c.Body != "ret" {
 			rp.out, rp.why = oErr, c.Body
 			return rp
@@ -328,6 +353,8 @@ func cbOracle(c CbCase, o *h.Obs) *h.Fail {
 				if rp.out == oOK {
 					rp.out, rp.why = oNoCrash, "unasserted:"+r.why
 				}
+			case cEither:
+				rp.vals[j], rp.loose[j], rp.either[j] = r.v, r.loose, true
 			default:
 				rp.vals[j], rp.loose[j] = r.v, r.loose
 			}
@@ -422,6 +449,18 @@ func cbOracle(c CbCase, o *h.Obs) *h.Fail {
 			return nil
 		}
 		// success of this invocation
+		anyEither := false
+		for _, e := range rp.either {
+			anyEither = anyEither || e
+		}
+		if anyEither && len(hostGot) <= inv {
+			// "error or that character": the error reading
+			o.Class("callbacks:outcome:either-error")
+			if !c.Try && err == nil {
+				return h.Failf("C11|callbacks|error-lost|either", "%s\ninvocation %d: the host received nothing and no error surfaced; anko returned %s", head(), inv, ank.Describe(got))
+			}
+			return nil
+		}
 		if len(hostGot) <= inv {
 			return h.Failf("C11|callbacks|unexpected-error|"+sigShape+"|nout="+strconv.Itoa(m), "%s\ninvocation %d: reference: results %s reach the host\nanko: the host received nothing, error: %v", head(), inv, descList(rp.vals), err)
 		}
@@ -430,6 +469,9 @@ func cbOracle(c CbCase, o *h.Obs) *h.Fail {
 			return h.Failf("C11|callbacks|result-count", "%s\ninvocation %d: host received %d results, declared %d", head(), inv, len(hg), m)
 		}
 		for j := 0; j < m; j++ {
+			if rp.either[j] && (hg[j].Type() != outT[j] || !same(hg[j], rp.vals[j], rp.loose[j])) {
+				return h.Failf("C11|callbacks|one-char-string|->"+kindName(outT[j]), "%s\ninvocation %d result %d (%s): Go has no conversion from a string to a byte / rune: the enclosing call fails with an error, or (the documented special case) the one character of the string arrives\nhost received %s, the character is %s", head(), inv, j, outT[j], desc(hg[j]), desc(rp.vals[j]))
+			}
 			if hg[j].Type() != outT[j] || !same(hg[j], rp.vals[j], rp.loose[j]) {
 				return h.Failf("C11|callbacks|wrong-result|->"+kindName(outT[j]), "%s\ninvocation %d result %d (%s): host received %s, Go conversion gives %s", head(), inv, j, outT[j], desc(hg[j]), desc(rp.vals[j]))
 			}
